@@ -124,6 +124,109 @@ def pagedReadAll {V} (t : Table V) (tag : Option Tag) (p bump : Nat) : Res V :=
 
 end Sqlite
 
+/-! ### Connection-level refinement (durability across reconnects)
+
+`SqliteStorage` owns ONE sqlite3 connection at a time (sqlite_storage.py:21-32); `__db_execute` (33-46) replaces it when an
+`execute` raises `sqlite3.OperationalError` and retries the statement once; a second failure propagates to the caller.  What other
+connections - a fresh `sqlite3.connect`, or the object made by close + reopen - can see is the COMMITTED table; the current
+connection sees the committed table plus its own open transaction.  In autocommit mode (`isolation_level=None`) every statement is
+its own transaction; otherwise Python's sqlite3 opens an implicit transaction before INSERT / UPDATE / DELETE that nobody commits,
+and `close()` rolls it back.  Whether a connection is in autocommit mode is decided where it is configured: `Cfg.initAuto` for the
+connection made by `__init__` (`__db_connect` + `_ensure_table_exists`), `Cfg.reconnAuto` for a replacement made by the reconnect
+branch (`__db_connect` alone).  Props/C09Sql.lean derives the `Cfg` of the code from the extracted connection-configuration sites. -/
+namespace Conn
+
+structure Cfg where
+  initAuto   : Bool     -- autocommit on the connection configured by `__init__`
+  reconnAuto : Bool     -- autocommit on a replacement connection made by the reconnect branch of `__db_execute`
+  deriving DecidableEq, Repr
+
+structure St (V : Type) where
+  committed : Sqlite.Table V    -- the file as every other connection sees it
+  view      : Sqlite.Table V    -- the file as the object's current connection sees it (committed + its open transaction)
+  auto      : Bool              -- the current connection is in autocommit mode
+  dirty     : Bool              -- the current connection holds an open (implicit) write transaction
+  locked    : Bool              -- another connection holds the write lock (`BEGIN IMMEDIATE`) beyond the busy timeout
+
+def init {V} (cfg : Cfg) : St V :=
+  { committed := [], view := [], auto := cfg.initAuto, dirty := false, locked := false }
+
+/-- calls on the object, with the faults that hit them, and what happens around it -/
+inductive COp (V : Type) where
+  /-- an interface call during which the next `execFaults` calls of `connection.execute` raise `OperationalError`
+      (0 none, 1 transient: the retry succeeds, ≥ 2 persistent) and, if `fetchFault`, `cursor.fetchall` raises it -/
+  | call (o : Op V) (execFaults : Nat) (fetchFault : Bool)
+  | fresh (tag : Option Tag)     -- `SELECT id, tag, serialization FROM cloud [WHERE tag = ?]` through a fresh connection
+  | lock                         -- another connection runs `BEGIN IMMEDIATE` and keeps the transaction open
+  | unlock                       -- … and rolls it back
+
+inductive CRes (V : Type) where
+  | ok (r : Res V)
+  | operationalError             -- `sqlite3.OperationalError` reaches the caller
+  | busy                         -- `lock`: the other connection cannot get the write lock
+  deriving Repr, DecidableEq
+
+def isWrite {V} : Op V → Bool
+  | .create .. | .update .. | .delete .. => true
+  | _ => false
+
+def usesFetch {V} : Op V → Bool
+  | .read .. | .readAll .. => true
+  | _ => false
+
+/-- `__db_connect` from the reconnect branch: `self.close()` (the old connection's open transaction is rolled back),
+    then a new connection configured by the connect call alone -/
+def reconnect {V} (cfg : Cfg) (s : St V) : St V :=
+  { s with view := s.committed, auto := cfg.reconnAuto, dirty := false }
+
+/-- one successful `execute` of the operation's statement on the current connection -/
+def exec {V} (s : St V) (o : Op V) : St V × Res V :=
+  if isWrite o then
+    if s.auto then
+      -- autocommit: the statement is its own transaction
+      ({ s with view := (Sqlite.step s.view o).1, committed := (Sqlite.step s.view o).1 }, (Sqlite.step s.view o).2)
+    else
+      -- implicit BEGIN, never committed
+      ({ s with view := (Sqlite.step s.view o).1, dirty := true }, (Sqlite.step s.view o).2)
+  else (s, (Sqlite.step s.view o).2)
+
+/-- `__db_execute`: try, on `OperationalError` reconnect and retry once; `none` = the error reaches the caller.
+    A write statement fails for as long as another connection holds the write lock (readers are not blocked: WAL). -/
+def attempt {V} (cfg : Cfg) (s : St V) (o : Op V) (n : Nat) : St V × Option (Res V) :=
+  if n = 0 ∧ (s.locked && isWrite o) = false then
+    ((exec s o).1, some (exec s o).2)
+  else if n ≤ 1 ∧ (s.locked && isWrite o) = false then
+    ((exec (reconnect cfg s) o).1, some (exec (reconnect cfg s) o).2)
+  else (reconnect cfg s, none)
+
+def step {V} (cfg : Cfg) (s : St V) : COp V → St V × CRes V
+  | .call .reopen n _ =>
+    -- `close()` + a new object: `__db_connect`, then the five set-up statements through `__db_execute`; if one of them hits a
+    -- (transient) fault the rest runs on a replacement connection.  (Not modelled: reopen while the file is locked.)
+    ({ s with view := s.committed, dirty := false, auto := if n = 0 then cfg.initAuto else cfg.reconnAuto }, .ok .unit)
+  | .call o n ff =>
+    match (attempt cfg s o n).2 with
+    | none => ((attempt cfg s o n).1, .operationalError)
+    | some r => if ff && usesFetch o then ((attempt cfg s o n).1, .operationalError) else ((attempt cfg s o n).1, .ok r)
+  | .fresh tag => (s, .ok (Sqlite.step s.committed (.readAll tag)).2)
+  | .lock => if s.dirty || s.locked then (s, .busy) else ({ s with locked := true }, .ok .unit)
+  | .unlock => ({ s with locked := false }, .ok .unit)
+
+def run {V} (cfg : Cfg) (s : St V) : List (COp V) → St V × List (CRes V)
+  | [] => (s, [])
+  | op :: ops =>
+    let (s1, r) := step cfg s op
+    let (s2, rs) := run cfg s1 ops
+    (s2, r :: rs)
+
+/-- the operations that were acknowledged (returned normally), in order -/
+def acked {V} : List (COp V) → List (CRes V) → List (Op V)
+  | .call o _ _ :: ops, .ok _ :: rs => o :: acked ops rs
+  | _ :: ops, _ :: rs => acked ops rs
+  | _, _ => []
+
+end Conn
+
 namespace Mock
 
 /-- the shared dict (tag ↦ id ↦ value) as an association list, plus the instance counter -/
